@@ -33,6 +33,24 @@ def same(a, b, approx=True):
     return a == b
 
 
+def denumpy(v):
+    """numpy scalars -> the Python number of the same value (recursively): the typed state store hands back Python numbers
+    where a plain observable keeps the numpy type; the properties speak about values"""
+    try:
+        import numpy as np
+    except ImportError:
+        return v
+    if isinstance(v, np.generic):
+        return v.item()
+    if isinstance(v, array):
+        return list(v)
+    if type(v) in (list, tuple):
+        return type(v)(denumpy(x) for x in v)
+    if isinstance(v, tuple) and hasattr(v, '_fields'):
+        return type(v)(*[denumpy(x) for x in v])
+    return v
+
+
 def same_seq(xs, ys, approx=True):
     return len(xs) == len(ys) and all(same(x, y, approx) for x, y in zip(xs, ys))
 
